@@ -88,3 +88,46 @@ func VerifC14_SweepBuilders() {
 		_, _ = h.MarshalBinary()
 	}
 }
+
+// transaction ids drawn through the process-wide generator every constructor uses
+func VerifC14_XidPackageGenerator() {
+	vr.Threads(2, func() uint32 { return NewOfp13Header().Xid }, "xids-pairwise-distinct")
+}
+
+// two values under construction at the same time: what is added to one does not show in the
+// other (constructors hand out independent memory, not slices of a shared template)
+func VerifC14_IndependentValuesOverlap() {
+	x, y := vr.U32("x"), vr.U32("y")
+	switch vr.Choice("kind", 3) {
+	case 0:
+		vr.Tag("kind", "match")
+		a := NewMatch()
+		a.AddField(*NewInPortField(x))
+		b := NewMatch()
+		b.AddField(*NewInPortField(y))
+		ab, _ := a.MarshalBinary()
+		bb, _ := b.MarshalBinary()
+		vr.Assert(len(ab) == 16 && walkU32(ab, 8) == x, "first-value-unchanged-by-the-second")
+		vr.Assert(len(bb) == 16 && walkU32(bb, 8) == y, "second-value-as-built")
+	case 1:
+		vr.Tag("kind", "flow-mod")
+		a := NewFlowMod()
+		a.Match.AddField(*NewInPortField(x))
+		b := NewFlowMod()
+		b.Match.AddField(*NewInPortField(y))
+		ab, _ := a.MarshalBinary()
+		bb, _ := b.MarshalBinary()
+		vr.Assert(len(ab) == 64 && walkU32(ab, 56) == x, "first-value-unchanged-by-the-second")
+		vr.Assert(len(bb) == 64 && walkU32(bb, 56) == y, "second-value-as-built")
+	default:
+		vr.Tag("kind", "apply-actions")
+		a := NewInstrApplyActions()
+		a.AddAction(NewActionOutput(x), false)
+		b := NewInstrApplyActions()
+		b.AddAction(NewActionOutput(y), false)
+		ab, _ := a.MarshalBinary()
+		bb, _ := b.MarshalBinary()
+		vr.Assert(len(ab) == 24 && walkU32(ab, 12) == x, "first-value-unchanged-by-the-second")
+		vr.Assert(len(bb) == 24 && walkU32(bb, 12) == y, "second-value-as-built")
+	}
+}
